@@ -745,7 +745,7 @@ def c17step (_ : Unit) (op : String) (impl : String) : Unit × String :=
         match (kv.lookup "k1").bind parseF, (kv.lookup "b").bind parseF with
         | some k1, some b =>
           let inst := plainField
-          let v := @gScore inst (@gScorerIdf inst k1 b 1.0 1.0 1.0) 0 0
+          let v := if scoreNoneConstantZero then (@gConstant inst 0.0).1 else @gScore inst (@gScorerIdf inst k1 b 1.0 1.0 1.0) 0 0
           let docs := parseDCorpus (kv.lookup "all" == some "1") corpus
           let ids := ((docs.filter fun d => termFreq d.fields field word ≥ 1).map (·.id)).toArray.qsort (· < ·) |>.toList
           ((if ids.isEmpty then "-" else ",".intercalate (ids.map fun i => i ++ "=" ++ fbits v)),
